@@ -49,7 +49,13 @@ def run_history(world_cls, seed, hist, params=None):
     obs = []
     for ev in hist:
         try:
-            obs.append(w.apply(tuple(ev)))
+            with lattice.cpu_limit(lattice.default_cpu_limit()):
+                obs.append(w.apply(tuple(ev)))
+        except lattice.CaseTimeout:
+            w.violations.append((f"event-did-not-finish:{ev[0]}", f"event {tuple(ev)} did not finish within "
+                                 f"{lattice.default_cpu_limit():g} s of CPU time (hang, or orders of magnitude slower)", {}))
+            obs.append(("timeout",))
+            break
         except HarnessError:
             raise
         except Exception as exc:  # noqa: BLE001 -- the library raised on a legal call of the alphabet
